@@ -909,10 +909,15 @@ def thread_jumps(b, rounds=4):
             while hops < 16 and cur is not None and cur != bi:
                 hops += 1
                 cb = b.blocks[cur]
+                own_consts = {st['dst']['l'] for st in cb['stmts'] if not st['dst']['proj'] and st['rv']['k'] == 'use' and st['rv']['ops'][0]['k'] == 'const'}
                 for st in cb['stmts']:
                     absorb(st)
                     segs[-1]['stmts'].append(dict(st))
                 ct = cb['term']
+                if ct['k'] == 'switch' and ct['on']['k'] != 'const' and not ct['on']['p']['proj'] and ct['on']['p']['l'] in own_consts:
+                    # `if cfg!(debug_assertions)` and its like: the block tests its own constant. It stays as written - the
+                    # panic rules recognise a debug-only assertion by this very test
+                    break
                 if ct['k'] == 'goto':
                     cur = ct['target']
                     continue
